@@ -15,7 +15,7 @@ import os
 
 from vlib import tools
 from vlib.elf import Elf
-from vlib.common import pmap, rng, write
+from vlib.common import pmap, rng, write, HarnessError
 
 LEVEL = "exploration"
 
@@ -243,15 +243,18 @@ def needed_name(case, li, how):
     return f"libL{li}.so" if how == "-l" else l["path"]
 
 
-def model(case):
-    """Returns (ordered DT_NEEDED names, per-library traits)."""
+def model(case, dead_counts=False):
+    """Returns (ordered DT_NEEDED names, per-library traits). `dead_counts`: whether a reference from
+    a section that --gc-sections discards still makes an --as-needed library needed (the statement
+    says "reference from the output"; GNU ld decides before garbage collection) - the caller
+    calibrates this one parameter against GNU ld."""
     occ = occurrences(case)
     kinds = ref_kinds(case)
     live_nonweak = set()
     for sym, ks in kinds.items():
         if sym in case["own"]:
             continue
-        if ks & {"strong", "data"} or ("dead" in ks and case["gc"] == "--no-gc-sections"):
+        if ks & {"strong", "data"} or ("dead" in ks and (dead_counts or case["gc"] == "--no-gc-sections")):
             live_nonweak.add(sym)
     used = set()
     first_definer = {}
@@ -263,13 +266,13 @@ def model(case):
         if sym in first_definer:
             used.add(first_definer[sym])
     out = []
-    seen = set()
     for li, an, how in occ:
-        if li in seen:
+        # a library is identified by the name it is recorded under (soname, else the spelling)
+        name = needed_name(case, li, how)
+        if name in out:
             continue
         if (not an) or li in used:
-            seen.add(li)
-            out.append(needed_name(case, li, how))
+            out.append(name)
     traits = {}
     for li in set(o[0] for o in occ):
         l = case["libs"][li]
@@ -284,6 +287,8 @@ def model(case):
             ref = "strong"
         elif "dead" in ks:
             ref = "gc-section-only" if case["gc"] == "--gc-sections" else "strong"
+            if ref == "gc-section-only" and dead_counts:
+                ref = "gc-section-only(counts)"
         elif ks & {"weak", "weakdata"}:
             ref = "weak-only"
         elif "shadowed" in ks:
@@ -341,7 +346,9 @@ def classify(case, want, got, traits):
     extra = [n for n in got if n not in ws]
     missing = [n for n in want if n not in gs]
     if len(got) != len(set(got)):
-        return "duplicate-entry"
+        dup = [n for n in got if got.count(n) > 1][0]
+        t = traits.get(name_to_lib.get(dup), {})
+        return f"duplicate-entry:spelled={t.get('how')}"
     # same libraries under different names?
     if extra and missing:
         el = [name_to_lib.get(n) for n in extra]
@@ -353,8 +360,31 @@ def classify(case, want, got, traits):
     if extra:
         return "extra:" + tr(extra[0])
     if missing:
+        t = traits.get(name_to_lib.get(missing[0]), {})
+        if t.get("repeated") and t.get("state") == "as-needed+no-as-needed":
+            return "missing:repeated-library-mentioned-both-as-needed-and-no-as-needed"
         return "missing:" + tr(missing[0])
     return "order"
+
+
+# Whether a reference from a section that --gc-sections discards keeps an --as-needed library. The
+# statement ("reference from the output") leaves it open; GNU ld decides before garbage collection.
+# Calibrated once per run against GNU ld (see calibrate_dead_refs), then used for every case.
+DEAD_COUNTS = [False]
+
+
+def calibrate_dead_refs(ctx):
+    lib = dict(i=0, soname="libL0.so", funcs=["L0_f", "L0_g"], data=["L0_d"], needs=None)
+    case = dict(own=[], kind="shared", gc="--gc-sections", objs_first=True, script=None, libs=[lib],
+                objs=[dict(refs=[("L0_f", "dead")])], toks=[("opt", "--as-needed"), ("lib", 0, "path")])
+    d = ctx.scratch.dir("calib")
+    if not build(ctx, case, d):
+        raise HarnessError("C37 calibration: cannot build library")
+    res = tools.link("ld", command(case, tools.fresh(os.path.join(d, "ld.out"))), cwd=d)
+    if not res.ok:
+        raise HarnessError("C37 calibration link failed: " + res.errtext()[:300])
+    DEAD_COUNTS[0] = bool(Elf(os.path.join(d, "ld.out")).needed())
+    ctx.note_set("calibration:gc-section-only-reference-keeps-as-needed-library(ld)", DEAD_COUNTS[0])
 
 
 def run_case(ctx, cid, case):
@@ -362,7 +392,7 @@ def run_case(ctx, cid, case):
     if not build(ctx, case, d):
         return ctx.inconclusive("could not build input libraries")
     desc = describe(case)
-    want, traits = model(case)
+    want, traits = model(case, dead_counts=DEAD_COUNTS[0])
     lres = tools.link("ld", command(case, tools.fresh(os.path.join(d, "ld.out"))), cwd=d)
     if lres.timed_out:
         return ctx.inconclusive("reference link timed out")
@@ -405,9 +435,28 @@ def run_case(ctx, cid, case):
         ctx.held(fingerprint=desc, nontrivial=len(set(o[0] for o in occurrences(case))) >= 2,
                  sample={"case": desc, "needed": want} if isinstance(cid, int) and cid < 4 else None)
         return
-    sig = classify(case, want, w_needed, traits) + f":out={'shared' if case['kind'] == 'shared' else 'exe'}"
+    sig = classify(case, want, w_needed, traits)
     ctx.violation(sig, f"DT_NEEDED {w_needed} but GNU ld and the model give {want} [{desc}]", case=cid, files=files,
                   info={"wild": w_needed, "ld": ld_needed, "model": want, "case": desc})
+
+
+def pinned_cases():
+    """Fixed minimal reproducers of the confirmed defects (re-observed on every run)."""
+    def lib(i):
+        return dict(i=i, soname=f"libL{i}.so", funcs=[f"L{i}_f", f"L{i}_g"], data=[f"L{i}_d"], needs=None)
+    base = dict(own=[], kind="shared", gc="--gc-sections", objs_first=True, script=None)
+    return [
+        # the same library spelled -lL0 and libs/libL0.so: one DT_NEEDED expected
+        ("pin-dup-spelling", dict(base, libs=[lib(0), lib(1)], objs=[dict(refs=[("L1_f", "strong")])],
+                                  toks=[("lib", 0, "-l"), ("lib", 0, "path"), ("lib", 1, "path")])),
+        # --as-needed -lL0 --no-as-needed -lL0 (unreferenced): the second mention must keep it
+        ("pin-repeat-no-as-needed", dict(base, libs=[lib(0), lib(1)], objs=[dict(refs=[("L1_f", "strong")])],
+                                         toks=[("opt", "--as-needed"), ("lib", 0, "-l"), ("opt", "--no-as-needed"),
+                                               ("lib", 0, "-l"), ("lib", 1, "path")])),
+        ("pin-as-needed-basic", dict(base, kind="pie", libs=[lib(0), lib(1), lib(2)],
+                                     objs=[dict(refs=[("L1_f", "strong"), ("L2_g", "weak")])],
+                                     toks=[("opt", "--as-needed"), ("lib", 0, "path"), ("lib", 1, "path"), ("lib", 2, "-l")])),
+    ]
 
 
 def main(ctx):
@@ -416,11 +465,15 @@ def main(ctx):
                 "--push-state/--pop-state regions, repeats, -l vs path, AS_NEEDED() script; exe/PIE/shared; a case counts "
                 "when GNU ld's DT_NEEDED list equals the model's and >=2 libraries are on the line; distinct = full case text")
     ctx.assumptions = ["GNU ld 2.40 calibrates the model; cases where it differs (e.g. its command-line order dependence, "
-                       "references from GC'd sections, references between libraries) are inconclusive",
+                       "references between libraries) are inconclusive",
+                       "whether a reference from a GC'd section keeps an --as-needed library is taken from GNU ld (calibrated once per run)",
                        "input libraries are linked by GNU ld"]
     tools.wild()
     n = ctx.pick(80, 1200)
-    jobs = list(range(n))
+    calibrate_dead_refs(ctx)
+    pins = dict(pinned_cases())
+    jobs = list(pins) + list(range(n))
     if ctx.replay is not None:
-        jobs = [int(str(ctx.replay["case"]))]
-    pmap(lambda i: run_case(ctx, i, gen_case(rng("C37", ctx.seed, i))), jobs)
+        c = str(ctx.replay["case"])
+        jobs = [c if c in pins else int(c)]
+    pmap(lambda i: run_case(ctx, i, pins[i] if i in pins else gen_case(rng("C37", ctx.seed, i))), jobs)
